@@ -13,6 +13,7 @@ import re
 from .. import effects
 from ..cfg import call_closure, call_path
 from ..facts import VERIF, load_program, library_units, children, strip_all_casts
+from ..rules import call_args
 
 
 def written_vars(prog):
@@ -86,7 +87,10 @@ def effect_rule(chk, prog, closure, rule_r1, rule_r2, label, written=None):
                 nfail += 1
                 chk.fail(rule_r2, f.name, 'no call to non-reentrant %s()' % base, f.loc(c),
                          'reached via ' + ' <- '.join(reversed(call_path(closure, key)[-4:])))
-            elif q in effects.PROCESS_STATE_SETTERS or 'std::' + q in effects.PROCESS_STATE_SETTERS:
+            elif q in effects.PROCESS_STATE_SETTERS or 'std::' + q in effects.PROCESS_STATE_SETTERS or (
+                    q == 'std::filesystem::current_path' and any(not a.get('defarg') and 'error_code' not in (a.get('t') or '')
+                                                                 for a in call_args(c))):
+                # (current_path() with a path argument SETS the working directory of the process)
                 nfail += 1
                 chk.fail(rule_r2, f.name, 'no change of process-wide state (%s)' % q, f.loc(c),
                          'every other thread observes the changed state while this handler works (and two handlers '
